@@ -13,15 +13,26 @@ type IsoCase struct {
 	Mut   int  `json:"mutation"`
 	Point int  `json:"point"`
 	Bare  bool `json:"no_metadata,omitempty"`
+	Wide  bool `json:"fields_beyond_core,omitempty"`
 }
 
 // isoBare selects the variant without metadata (hand-built data usually has none).
 var isoBare bool
 
+// isoWide selects hand-built data whose fields lie beyond the core size
+// (AddWarrior accepts it; the addressing reduces the values when it uses them).
+var isoWide bool
+
 func isoWarrior() *g.WarriorData {
 	w := isoWarriorFull()
 	if isoBare {
 		w.Name, w.Author, w.Strategy = "", "", ""
+	}
+	if isoWide {
+		for i := range w.Code {
+			w.Code[i].A += g.Address(7 * (i + 1))
+			w.Code[i].B += g.Address(7 * 100 * (i + 1))
+		}
 	}
 	return w
 }
@@ -150,8 +161,10 @@ func (c *Ctx) RunIso() {
 		isoBare = bare
 		c.runIso()
 	}
-	isoBare = false
-	c.Rep.Bound = fmt.Sprintf("%d mutations of the caller's WarriorData (with and without metadata) x %d API points of a %d-cycle battle with Reset and respawn; the battle must leave the caller's data untouched", nMutations(), isoPoints, isoCycles)
+	isoWide = true
+	c.runIso()
+	isoBare, isoWide = false, false
+	c.Rep.Bound = fmt.Sprintf("%d mutations of the caller's WarriorData (with metadata, without, and with fields beyond the core size) x %d API points of a %d-cycle battle with Reset and respawn; the battle must leave the caller's data untouched", nMutations(), isoPoints, isoCycles)
 	c.Rep.Sample("mutation 3 (field A of instruction 0) applied after cycle 2")
 }
 
@@ -160,11 +173,11 @@ func (c *Ctx) runIso() {
 	base, before, after, pan := isoRun(-1, 0)
 	rep.States++
 	if pan != "" {
-		c.fail("panic", (&Scenario{Mode: "iso", Iso: &IsoCase{-1, 0, isoBare}}).witness(), pan)
+		c.fail("panic", (&Scenario{Mode: "iso", Iso: &IsoCase{-1, 0, isoBare, isoWide}}).witness(), pan)
 		return
 	}
 	if before != after {
-		c.fail("battle-changed-caller-data", (&Scenario{Mode: "iso", Iso: &IsoCase{-1, 0, isoBare}}).witness(), fmt.Sprintf("caller's data before: %s; after the battle: %s", before, after))
+		c.fail("battle-changed-caller-data", (&Scenario{Mode: "iso", Iso: &IsoCase{-1, 0, isoBare, isoWide}}).witness(), fmt.Sprintf("caller's data before: %s; after the battle: %s", before, after))
 	}
 	for m := 0; m < nMutations(); m++ {
 		for p := 0; p < isoPoints; p++ {
@@ -178,7 +191,7 @@ func (c *Ctx) checkIso(base []string, m, p int) {
 	rep.States++
 	rep.Transitions++
 	rep.Traces++
-	sc := &Scenario{Mode: "iso", Iso: &IsoCase{m, p, isoBare}}
+	sc := &Scenario{Mode: "iso", Iso: &IsoCase{m, p, isoBare, isoWide}}
 	tr, _, _, pan := isoRun(m, p)
 	if pan != "" {
 		c.fail("panic", sc.witness(), pan)
